@@ -4,7 +4,8 @@
 # Every invocation uses its own copy (removed afterwards) so that concurrent runs do not collide.
 WT="$1"; PID="$2"; TIER="${3:-quick}"
 COPY=$(mktemp -d /tmp/vmut.XXXXXX)
-rsync -a --exclude .git --exclude 'work/*/cases.txt' --exclude 'work/*/impl.txt' --exclude 'work/*/model.txt' --exclude 'work/mut' --exclude replays --exclude evidence /verif/ $COPY/
+# only the build products that save time are copied from work/ (harness binary, OCaml drivers)
+rsync -a --exclude .git --include 'work/' --include 'work/bin/***' --include 'work/ocaml/***' --exclude 'work/*' --exclude replays --exclude evidence /verif/ $COPY/
 cd $COPY && VERIF_REPO="$WT" ./run.sh "$PID" "$TIER"
 RC=$?
 mkdir -p /tmp/vmut-replays && cp -f $COPY/replays/* /tmp/vmut-replays/ 2>/dev/null
